@@ -834,6 +834,16 @@ def numpy_array_2d_via_fits_from(
     return np.array(hdu_list[hdu].data).astype("float64")
 
 
+def pixel_scales_from_header(header) -> Union[float, Tuple[float, float]]:
+    """
+    Returns the pixel scale(s) stored in a .fits header by `pixel_scale_header`: the single `PIXSCALE` card, or the
+    (y,x) pair of `PIXSCALEY` / `PIXSCALEX` cards written when the two pixel scales differ.
+    """
+    if "PIXSCALE" in header:
+        return header["PIXSCALE"]
+    return (header["PIXSCALEY"], header["PIXSCALEX"])
+
+
 def header_obj_from(file_path: Union[Path, str], hdu: int) -> Dict:
     """
     Read a 2D NumPy array from a .fits file.
